@@ -185,6 +185,17 @@ def _reset_process_state():
 
 
 # ---------------------------------------------------------------------------
+def _heavy_mass(mg):
+    """heavy-atom mass of the molecule built so far, measured on the RDKit molecule itself (not through the MolGen.weight
+    accessor, which is one of the things under test: C05 mass_accessor)"""
+    try:
+        from rdkit.Chem import Descriptors
+
+        return float(Descriptors.HeavyAtomMolWt(mg._mol))
+    except Exception:
+        return float(mg.weight)
+
+
 def desc_view(bd):
     """JSON-able view of a live BondDescriptor."""
     tr = getattr(bd, "transitions", None)
@@ -283,7 +294,7 @@ def install():
         na_o, nb_o = _natoms(other)
         inst_s = list(self._gb_inst)
         inst_o = list(other._gb_inst)
-        w_pre = float(self.weight)
+        w_pre = _heavy_mass(self)
         ev = {
             "k": "att", "obj": self._gb_obj, "oobj": other._gb_obj, "si": int(self_bond_idx), "oi": int(other_bond_idx),
             "pre_self": pre_self, "pre_other": pre_other, "na": [na_s, na_o], "nb": [nb_s, nb_o], "w_pre": w_pre,
@@ -311,7 +322,7 @@ def install():
         ev["post"] = [desc_view(b) for b in res.bond_descriptors]
         ev["na_post"] = na_r
         ev["nb_post"] = nb_r
-        ev["w_post"] = float(res.weight)
+        ev["w_post"] = _heavy_mass(res)
         w.event(ev, {"self": self, "other": other, "res": res})
         return res
 
